@@ -64,6 +64,34 @@ func scanFirstIter(c *core.Ctx) []ob {
 					return false
 				case *ast.IfStmt:
 					be, ok := unparen(z.Cond).(*ast.BinaryExpr)
+					if ok && be.Op == token.EQL && z.Else == nil && len(z.Body.List) == 1 {
+						// the operation itself is selected by the first-iteration test: `acc := r.MulThenAdd; if i == 0 { acc = r.Mul }`
+						// followed by acc(…, D) — the same idiom with the two arms folded into a function value
+						if as, ok := z.Body.List[0].(*ast.AssignStmt); ok && as.Tok == token.ASSIGN && len(as.Lhs) == 1 {
+							cx, cy := unparen(be.X), unparen(be.Y)
+							if _, litFirst := cx.(*ast.BasicLit); litFirst {
+								cx, cy = cy, cx
+							}
+							id, ok1 := cx.(*ast.Ident)
+							lit, ok2 := cy.(*ast.BasicLit)
+							fid, ok3 := as.Lhs[0].(*ast.Ident)
+							if ok1 && ok2 && ok3 && lit.Value == "0" && info.Uses[id] == kobj {
+								if fv, ok := info.Uses[fid].(*types.Var); ok {
+									if _, isFn := fv.Type().Underlying().(*types.Signature); isFn {
+										ast.Inspect(rs.Body, func(w ast.Node) bool {
+											if call, ok := w.(*ast.CallExpr); ok && len(call.Args) > 0 {
+												if cid, ok := unparen(call.Fun).(*ast.Ident); ok && info.Uses[cid] == types.Object(fv) {
+													dsts = append(dsts, exprString(call.Args[len(call.Args)-1]))
+												}
+											}
+											return true
+										})
+									}
+								}
+							}
+						}
+						return true
+					}
 					if !ok || (be.Op != token.EQL && be.Op != token.NEQ && be.Op != token.GTR) || z.Else == nil {
 						return true
 					}
